@@ -102,6 +102,10 @@ def run(prog, rep):
                       'never dropped: a failed save surfaces as an exception instead of a truncated document', floor=4)
     json_render.check(prog, rep, 'R20.6', want=('accept',))
 
+    # ---------------------------------------------------------------- R20.7 a truncated text stream ends in a result, not in an endless loop
+    from rules import encoded_reader
+    encoded_reader.check(prog, rep, ids={'R13.7': 'R20.7', 'R13.8': 'R20.8'})
+
     # ---------------------------------------------------------------- R20.2 thrown types
     rep.rule('R20.2', 'every throw operand type derives from std::exception; bare "throw;" only inside a handler', floor=60)
     for f in prog.funcs.values():
